@@ -1716,7 +1716,8 @@ impl TypeLayout {
     }
 
     pub fn supports_negate(&self) -> bool {
-        let me = self.get_type_recursively();
+        // a type alias (`type I int`) negates like the type it names
+        let me = self.disregard_distractors(false);
         match me {
             Self::Native(NativeType::Int | NativeType::BigInt | NativeType::Float) => true,
             _ => false,
